@@ -519,6 +519,10 @@ func evalWhileLoopStmt(vm *r.VM, node *syntax.WhileLoopStmt) error {
 			}
 			return err
 		}
+		// 输出 inside the loop body ends the enclosing function: no further pass
+		if vm.GetReturnValue() != nil {
+			return nil
+		}
 	}
 }
 
@@ -599,6 +603,8 @@ func evalIterateStmt(vm *r.VM, node *syntax.IterateStmt) error {
 		_, err := evalPureStmtBlock(vm, node.IterateBlock)
 		return err
 	}
+	// 输出 inside the loop body ends the enclosing function: no further pass
+	hasReturned := func() bool { return vm.GetReturnValue() != nil }
 
 	// define indication variables as "currentKey" and "currentValue" under new iterScope
 	// of course since there's no any iteration is executed yet, the initial values are all "Null"
@@ -655,6 +661,9 @@ func evalIterateStmt(vm *r.VM, node *syntax.IterateStmt) error {
 				}
 				return err
 			}
+			if hasReturned() {
+				return nil
+			}
 		}
 	case *value.HashMap:
 		for _, key := range tv.GetKeyOrder() {
@@ -671,6 +680,9 @@ func evalIterateStmt(vm *r.VM, node *syntax.IterateStmt) error {
 					}
 				}
 				return err
+			}
+			if hasReturned() {
+				return nil
 			}
 		}
 	default:
